@@ -1825,6 +1825,8 @@ impl SourceTextModule {
 
             (Gc::new(compiler.finish()), functions)
         };
+        #[cfg(boa_verif)]
+        crate::verif::emit_tree(&codeblock, "module");
 
         // 8. Let moduleContext be a new ECMAScript code execution context.
         let mut envs = EnvironmentStack::new();
